@@ -112,7 +112,7 @@ impl World {
             panics: vec![],
             step: 0,
             total_polls: 0,
-            poll_budget: 2_000_000,
+            poll_budget: 300_000,
             budget_exhausted: false,
             pkts: vec![],
             parsed_upto: 0,
